@@ -350,12 +350,20 @@ impl Retrier {
         //            waste a retry cycle with a request that will always fail.
         {
             let mut state = self.wt_client.lock().unwrap();
-            if !state
-                .get_tower_status(&self.tower_id)
-                .unwrap()
-                .is_subscription_error()
-            {
-                state.set_tower_status(self.tower_id, TowerStatus::TemporaryUnreachable);
+            match state.get_tower_status(&self.tower_id) {
+                Some(status) => {
+                    if !status.is_subscription_error() {
+                        state.set_tower_status(self.tower_id, TowerStatus::TemporaryUnreachable);
+                    }
+                }
+                None => {
+                    // The tower was abandoned after the data was handed to the retrier. There is nothing to retry:
+                    // flag the retrier as failed so the manager gets rid of it.
+                    log::info!("Skipping retrying abandoned tower {}", self.tower_id);
+                    drop(state);
+                    self.set_status(RetrierStatus::Failed);
+                    return;
+                }
             }
         }
         self.set_status(RetrierStatus::Running);
